@@ -780,6 +780,43 @@ def _instance_reads(m, ci, f, skip=(), seen=None):
     return out
 
 
+def _key_unit_blind(m, ci, f, key):
+    """a quantity attribute whose bare number (`.value`, without a conversion to a fixed unit) is part of the key a memo is
+    validated against: the same number in another unit (1 deg -> 1 rad) passes for "unchanged".  Returns the attribute name."""
+    assigns = {}
+    for n in ast.walk(f.node):
+        if isinstance(n, ast.Assign) and len(n.targets) == 1 and isinstance(n.targets[0], ast.Name):
+            assigns.setdefault(n.targets[0].id, []).append(n.value)
+
+    def self_attr(e, depth=0):
+        if isinstance(e, ast.Attribute) and isinstance(e.value, ast.Name) and e.value.id == 'self':
+            return e.attr
+        if isinstance(e, ast.Subscript) and isinstance(e.value, ast.Attribute) and e.value.attr == '__dict__' \
+                and isinstance(e.value.value, ast.Name) and e.value.value.id == 'self' and isinstance(e.slice, ast.Constant):
+            return e.slice.value
+        if isinstance(e, ast.Name) and depth < 3 and len(assigns.get(e.id, [])) == 1:
+            return self_attr(assigns[e.id][0], depth + 1)
+        return None
+    exprs, seen = [], set()
+    for n in ast.walk(f.node):
+        if isinstance(n, ast.Compare) and any(isinstance(o, (ast.Eq, ast.NotEq)) for o in n.ops):
+            exprs.extend([n.left] + list(n.comparators))
+    i = 0
+    while i < len(exprs):
+        for x in ast.walk(exprs[i]):
+            if isinstance(x, ast.Name) and x.id not in seen and len(assigns.get(x.id, [])) == 1:
+                seen.add(x.id)
+                exprs.append(assigns[x.id][0])
+        i += 1
+    for e in exprs:
+        for x in ast.walk(e):
+            if isinstance(x, ast.Attribute) and x.attr == 'value':
+                a = self_attr(x.value)
+                if a is not None and m.descriptor_kind(ci, a) in ('ScalarAngle', 'PositiveScalarAngle', 'QuantityAttribute'):
+                    return a
+    return None
+
+
 def _handed_out_by_reference(m, ci, attr):
     """does `instance.<attr>` give the caller the stored object itself?  True when the attribute is a descriptor of the
     repository whose __get__ returns the entry of the instance dictionary without copying it."""
@@ -869,6 +906,11 @@ def memoised_geometry(m, ci, names=None, rule='memo'):
                     raise AnalysisError(rule, f'{ci.name}.{name}', f'{why}; every parameter writer drops the entry {key!r}, but the '
                                         f'remembered value reads self.{", self.".join(byref)}, which can be changed in place — not decided')
             elif (ka := _key_checked(m, ci, f, key)) is not None:
+                blind = _key_unit_blind(m, ci, f, key)
+                if blind is not None:
+                    out.append((name, f'{why}; the entry is validated against the bare number of self.{blind} (`.value`, whatever the '
+                                f'unit): the same number in another unit (1 deg -> 1 rad) passes for "unchanged"', f))
+                    continue
                 rd = _instance_reads(m, ci, f, skip=(key,))
                 missing = sorted(a for a in rd - ka if a is not None)
                 if missing and None not in ka:
